@@ -176,12 +176,14 @@ def generate(rng, tier):
     keys = list(C.SHAPES)
     if tier == "quick":
         # of the shapes whose look-alike siblings DIFFER in meaning (a far decimal, one polarity, = vs not =, the quantified
-        # type, a contradiction, a leaf that an earlier compound contains) every second one, of the others (controls: exact
-        # copies, operand order, near constants; the other families) one in four - a different selection per seed
-        pick, pick_d = rng.randrange(4), rng.randrange(2)
+        # type, a contradiction, a leaf that an earlier compound contains) and of the other families (nesting, constants, numerals,
+        # scoping ...) every second one, of the controls (exact copies, operand order, near constants) one in four - by seed
+        pick, pick_d, pick_f = rng.randrange(4), rng.randrange(2), rng.randrange(2)
         differ = [k for k in keys if C.differs(k)]
-        keys = [k for i, k in enumerate(differ) if i % 2 == pick_d] + \
-               [k for i, k in enumerate([k for k in keys if not C.differs(k)]) if i % 4 == pick]
+        controls = [k for k in keys if not C.differs(k) and k.split(":")[0] in ("twins", "leaf-twins", "when-twins")]
+        families = [k for k in keys if not C.differs(k) and k not in controls]
+        keys = [k for i, k in enumerate(differ) if i % 2 == pick_d] + [k for i, k in enumerate(families) if i % 2 == pick_f] + \
+               [k for i, k in enumerate(controls) if i % 4 == pick]
     for key in keys:
         done, tries = 0, 0
         # the shapes that plant look-alikes whose meanings differ are planted in both text orders
@@ -336,7 +338,7 @@ def run(args):
                    "comparison forms - each probed on the action that carries the shape in 3 states chosen to separate the siblings (hinted facts all "
                    "false / all true, or the regime under which the siblings' literals are neutral; fluent values between the two constants, shifted by "
                    "EPSILON where the comparison is tolerant; then a random state), 4 calls "
-                   "(quick: half of the shapes whose siblings differ in meaning - the 'far' ones in both text orders - and a quarter of the others, by seed; thorough: 2 worlds per shape) + every domain file shipped under "
+                   "(quick: half of the shapes whose siblings differ in meaning - the 'far' ones in both text orders - half of the other families and a quarter of the controls, by seed; thorough: 2 worlds per shape) + every domain file shipped under "
                    "/repo/tests, once per distinct content (quick: up to 10 kB + one larger; vocabulary / raised compared, behaviour not probed). "
                    "Other parsed worlds are probed with 2-3 objects, one random state, two type-correct calls per action; units = vocabulary (parse), "
                    "applicability (app), successor (succ). productions = census of grammar productions over the generated texts. A unit is "
